@@ -51,6 +51,10 @@ func (r C06Rec) String() string {
 // recover a panic and return the records put synchronously during the call.
 type C06Proc interface {
 	Feed(frame []byte) (recs []C06Rec, panicked any)
+	// Retained renders, as they are now, all record objects emitted since creation (in order): a
+	// record handed out for an earlier frame must not change when a later frame is processed
+	// (results wait in a buffered channel before they are printed).
+	Retained() []C06Rec
 }
 
 type C06Mode struct {
@@ -232,8 +236,40 @@ func c06Feed(p C06Proc, f *C06Frame) c06Outcome {
 func (d *c06Driver) runSeq(m *C06Mode, seq []*C06Frame, from int, canonical, counted bool) {
 	p := m.New()
 	validBefore := false
+	var emitted []C06Rec // as rendered when they were emitted
+	var emittedBy []int
 	for k, fr := range seq {
 		out := c06Feed(p, fr)
+		if now := p.Retained(); k >= from && out.pan == nil {
+			for i := range emitted {
+				if i < len(now) && now[i].String() != emitted[i].String() && (canonical || counted) {
+					var hist []string
+					for _, h := range seq[:k] {
+						hist = append(hist, h.Name())
+					}
+					f := c06Finding{
+						Class: m.Proto + ":mutated-record", Key: m.Proto + ":mutated-record|" + fr.Name() + "-after-" + seq[emittedBy[i]].Name(),
+						Desc: fmt.Sprintf("%s mode=%s: the record emitted for frame %q was %s; after frame %q was processed the same record object reads %s (records wait in a buffered channel before they are printed, so a later frame rewrote an earlier result); history %v",
+							d.part, m.Name, seq[emittedBy[i]].Name(), emitted[i], fr.Name(), now[i], hist),
+						Detail: m.Link.String(), Size: len(fr.B) + 4096*k,
+						Replay: map[string]any{"part": d.part, "mode": m.Name, "frame_hex": DecHex(fr.B), "earlier_frame_hex": DecHex(seq[emittedBy[i]].B)},
+					}
+					if counted {
+						d.nviol[f.Class]++
+					}
+					if canonical {
+						d.canon.add(f)
+					} else if _, known := d.canon.by[f.Class]; !known {
+						d.extra.add(f)
+					}
+					break
+				}
+			}
+		}
+		for _, r := range out.recs {
+			emitted = append(emitted, r)
+			emittedBy = append(emittedBy, k)
+		}
 		want, cerr := m.Want(fr.B)
 		kind, cls, ord, detail := "", "well-formed", 0, m.Link.String()
 		if _, ok := cerr.(*C06Lenient); ok {
